@@ -125,6 +125,8 @@ def create_pobs_string(obsl, name, spec='', origin='', symbol=[], enstag=None):
             raise Exception('You try to export dobs to obs!')
         if len(o.deltas.keys()) != nr:
             raise Exception('Incompatible obses in list')
+        if list(o.deltas.keys()) != names or any(list(o.idl[name]) != list(obsl[0].idl[name]) for name in names):
+            raise Exception('All observables of a pobs file have to be defined on the same replica and configurations.')
     od['observables'] = {}
     od['observables']['schema'] = {'name': 'lattobs', 'version': '1.0'}
     od['observables']['origin'] = {
